@@ -128,6 +128,22 @@ func runNewConn(record []byte, keys []ech.Key) obsNewConn {
 	}
 }
 
+// scribbledALPN returns what the Conn reports after a caller has overwritten a previously returned list: the report is
+// the Conn's own state, not the caller's.
+func scribbledALPN(c *ech.Conn) []string {
+	first := append([]string{}, c.ALPNProtos()...)
+	if a := c.ALPNProtos(); len(a) > 0 {
+		for i := range a {
+			a[i] = "overwritten-by-caller"
+		}
+	}
+	again := c.ALPNProtos()
+	if len(first) == 0 && len(again) == 0 {
+		return again
+	}
+	return append([]string{}, again...)
+}
+
 func runNewConnInner(record []byte, keys []ech.Key) (o obsNewConn) {
 	sc := newScriptConn(record)
 	defer func() {
@@ -154,7 +170,7 @@ func runNewConnInner(record []byte, keys []ech.Key) (o obsNewConn) {
 		}
 		return o
 	}
-	o.Sni, o.Alpn = c.ServerName(), c.ALPNProtos()
+	o.Sni, o.Alpn = c.ServerName(), scribbledALPN(c)
 	if c.ECHAccepted() {
 		o.Kind = "accept"
 	} else {
